@@ -185,9 +185,9 @@ func serializeAttrs(pc *PrintCtx, kvps Attrs) (err error) { //nolint:revive
 			ct.echoColorAndBg(pc, pc.clr, pc.bg)
 		}
 
-		if !inGroupedMode {
-			_, inGroupedMode = v.(groupedValue)
-		}
+		// decided per attribute: once a group has been printed, the plain
+		// attributes that follow it must get their keys again.
+		_, inGroupedMode = v.(groupedValue)
 
 		key := v.Key()
 		if inGroupedMode && !pc.jsonMode && pc.valueStringer == nil {
